@@ -70,6 +70,11 @@ def main():
             rows.append((sid, "PATCH-DOES-NOT-APPLY", None))
             continue
         rc, out, dt = check(prop, tier)
+        try:
+            with open(f"/tmp/seedout.{sid}.log", "w") as f:
+                f.write(out)
+        except OSError:
+            pass
         sh(["git", "-C", REPO, "checkout", "--", "."])
         sh(["git", "-C", REPO, "clean", "-fdq"])
         viol = [l for l in out.splitlines() if l.startswith("VIOLATION ")]
